@@ -67,6 +67,9 @@ structure Expect where
   deriving Inhabited
 
 structure OState where
+  /-- the session was abandoned (`forget`) earlier in this history: the image is a crash image from then on, the
+      structural oracles (which presuppose an orderly session) are off until the next `format` -/
+  abandoned : Bool := false
   /-- geometry of the volume on the device, once a `format`/`raw`/`mount` left a parsable boot sector -/
   geom : Option Geom := none
   mounted : Bool := false
@@ -379,7 +382,7 @@ def runFsck (st st' : OState) (v : OpView) (c : Ctx) (onlyFat : Bool) :
     else
       let msgs :=
         if onlyFat then checkReservedEntries g v.after g.activeCopy ++ checkFatCopies g v.after
-        else fsck v.after (v.overlay.getD [])
+        else fsck v.after (v.overlay.getD []) c.upper
       -- messages that carry a count (`lost-cluster <n> …`, `… <n> orphan long-name slot(s) …`, `… <n> used slot(s) …`)
       -- are new only when the count grew for the same subject
       let countKey (m : String) : Option (String × Nat) :=
@@ -1298,8 +1301,16 @@ def stepO (st : OState) (v : OpView) : OState × List String :=
     | none => (st', msgs)
   | _ => ({ st' with tree := none }, [])
 
+def stepGuard (st : OState) (v : OpView) : OState × List String :=
+  let (st', msgs) := stepO st v
+  let isOk := v.io.res.headD "" == "ok"
+  let ab := if v.io.text.startsWith "format" && isOk then false
+            else st.abandoned || (v.io.text.startsWith "forget" && isOk)
+  let crashTolerant := ["C12", "C09", "C13", "C14"].contains v.prop
+  ({ st' with abandoned := ab }, if ab && !crashTolerant then [] else msgs)
+
 def oracle : HistMain.OracleDef OState where
   init := fun _ => {}
-  step := stepO
+  step := stepGuard
 
 end FatVerif.Oracles
